@@ -46,7 +46,7 @@ var (
 	flagOnly     = flag.String("only", "", "run only harnesses whose name contains this")
 	flagOut      = flag.String("out", "", "report JSON output file")
 	flagReplay   = flag.String("replay", "", "replay file (pins inputs and decisions)")
-	flagSolver   = flag.String("solver", "z3", "primary solver")
+	flagSolver   = flag.String("solver", "z3-new", "primary incremental solver (z3-new = z3 5.1.0)")
 	flagJobs     = flag.Int("j", 16, "parallel harnesses")
 	flagVerbose  = flag.Bool("v", false, "verbose")
 	flagSMTLog   = flag.String("smtlog", "", "write solver dialogue of the (single) harness here")
@@ -291,6 +291,8 @@ type harnessJSON struct {
 	WallS          float64                      `json:"wall_s"`
 	Terms          int                          `json:"terms"`
 	Workers        int                          `json:"workers"`
+	Portfolio      int                          `json:"portfolio_queries"`
+	PortfolioWins  map[string]int               `json:"portfolio_wins,omitempty"`
 	Merges         int                          `json:"if_conversions"`
 	InitNotes      []string                     `json:"init_notes,omitempty"`
 	Unwind         int                          `json:"unwind"`
@@ -317,7 +319,7 @@ func summarize(d *harnessDecl, r *symgo.Report) harnessJSON {
 		Paths: r.Paths, PathsCompleted: r.PathsCompleted, PathsAssumeCut: r.PathsAssumeCut,
 		Branches: r.Branches, Forks: r.Forks, Steps: r.Steps, Queries: r.Queries, Sat: r.NSat, Unsat: r.NUnsat,
 		Unknown: r.NUnknown, SolverS: r.SolverTime.Seconds(), WallS: r.Wall.Seconds(), Terms: r.Terms,
-		Unwind: d.Cfg.Unwind, Params: d.Cfg.Params, Workers: r.Workers, Merges: r.Merges, InitNotes: r.InitNotes,
+		Unwind: d.Cfg.Unwind, Params: d.Cfg.Params, Workers: r.Workers, Portfolio: r.PortfolioQueries, PortfolioWins: r.PortfolioWins, Merges: r.Merges, InitNotes: r.InitNotes,
 		Failures: r.Failures, Covers: r.Covers, CoverWitness: r.CoverWitness,
 		UnwindFailures: r.UnwindFailures, Unsupported: r.Unsupported, Unknowns: r.Unknowns, Incomplete: r.Incomplete,
 		Funcs: r.FuncsExecuted, Stubs: r.StubsHit, Models: r.ModelsHit, UFs: r.UFsHit, Witnesses: r.Witnesses,
@@ -538,6 +540,9 @@ func buildDecl(block []string, fn, rel, path string) *harnessDecl {
 					if kv == "native" {
 						d.Native = true
 					}
+					if kv == "noassumecheck" {
+						d.Cfg.NoAssumeCheck = true
+					}
 					continue
 				}
 				n, _ := strconv.Atoi(p[1])
@@ -587,8 +592,14 @@ func buildDecl(block []string, fn, rel, path string) *harnessDecl {
 			}
 		case strings.HasPrefix(head, "uf"):
 			inj := strings.Contains(head, "injective")
+			as := ""
+			for _, opt := range strings.Split(head, ",") {
+				if strings.HasPrefix(opt, "as=") {
+					as = strings.TrimPrefix(opt, "as=")
+				}
+			}
 			for _, n := range rest {
-				d.Cfg.UFs[n] = symgo.UFCfg{Injective: inj}
+				d.Cfg.UFs[n] = symgo.UFCfg{Injective: inj, As: as}
 			}
 		case head == "go":
 			if len(rest) > 0 {
